@@ -16,4 +16,25 @@ struct url {
 /* ada::get_max_input_length(): a relaxed atomic load of the process-wide limit; modelled as an arbitrary but fixed value */
 extern uint32_t g_max_input_length;
 static inline uint32_t get_max_input_length(void) { return g_max_input_length; }
+/* basic shape (type invariant) of an aggregator in the string model: what every member function may rely on for memory
+ * safety -- the string is within capacity and NUL-terminated and no offset points outside it */
+#define AGG_SHAPE(u) ((u)->base.type >= 0 && (u)->base.type <= 6 && (u)->base.host_type >= 0 && (u)->base.host_type <= 2 && (u)->buffer.n <= STR_CAP && (u)->buffer.d[(u)->buffer.n] == 0 && \
+  (u)->components.protocol_end <= (u)->buffer.n && (u)->components.username_end <= (u)->buffer.n && (u)->components.host_start <= (u)->buffer.n && \
+  (u)->components.host_end <= (u)->buffer.n && (u)->components.pathname_start <= (u)->buffer.n && \
+  (u)->components.protocol_end <= (u)->components.username_end && (u)->components.username_end <= (u)->components.host_start && \
+  (u)->components.host_start <= (u)->components.host_end && (u)->components.host_end <= (u)->components.pathname_start && \
+  ((u)->components.search_start == OMITTED || (u)->components.search_start < (u)->buffer.n) && \
+  ((u)->components.hash_start == OMITTED || (u)->components.hash_start < (u)->buffer.n) && \
+  ((u)->components.search_start == OMITTED || (u)->components.pathname_start <= (u)->components.search_start) && \
+  ((u)->components.hash_start == OMITTED || (u)->components.pathname_start <= (u)->components.hash_start) && \
+  ((u)->components.search_start == OMITTED || (u)->components.hash_start == OMITTED || (u)->components.search_start < (u)->components.hash_start))
+static inline _Bool agg_eqv(struct url_aggregator a, struct url_aggregator b) {
+  if (a.base.is_valid != b.base.is_valid || a.base.has_opaque_path != b.base.has_opaque_path || a.base.host_type != b.base.host_type || a.base.type != b.base.type) return 0;
+  if (a.components.protocol_end != b.components.protocol_end || a.components.username_end != b.components.username_end || a.components.host_start != b.components.host_start ||
+      a.components.host_end != b.components.host_end || a.components.port != b.components.port || a.components.pathname_start != b.components.pathname_start ||
+      a.components.search_start != b.components.search_start || a.components.hash_start != b.components.hash_start) return 0;
+  if (a.buffer.n != b.buffer.n) return 0;
+  for (size_t i = 0; i <= STR_CAP; i++) if (a.buffer.d[i] != b.buffer.d[i]) return 0;
+  return 1;
+}
 #endif
